@@ -75,7 +75,18 @@ impl File {
                 (res, bufs[0])
             }
             #[cfg(target_os = "linux")]
-            File::Uring(f) => f.read_at(buf, offset).await,
+            File::Uring(f) => {
+                use tokio_uring::buf::IoBuf;
+
+                // tokio-uring's read_at() fills a buffer from its start. Hand over the free part
+                // only, as preadv() above and readv_at() do. slice() rejects an empty range.
+                let init = buf.len();
+                if init == buf.cap() {
+                    return (Ok(0), buf);
+                }
+                let (res, slice) = f.read_at(buf.slice(init..), offset).await;
+                (res, slice.into_inner())
+            }
         }
     }
 
